@@ -311,6 +311,7 @@ func c14Child(cfgJSON string) {
 		e.replayKnown()
 	}
 	e.bigSources()
+	e.overlappingRequests()
 	c.Finish(k.Out)
 }
 
@@ -1528,4 +1529,107 @@ func (e *c14Env) replayKnown() {
 			e.c.Note("F-14d: the stored witness %q no longer fails (attachment links resolve)", box)
 		}
 	}
+}
+
+
+// overlappingRequests: what a request is answered does not depend on which other requests are being served at the same time.  Every read
+// route is asked (i) alone, (ii) with another complete request served while its own response is being written (the client is slow to take
+// the first byte; deterministic), (iii) by eight clients at once over real connections; (ii) and (iii) must return byte for byte what (i)
+// returned.  Implementation only (the model answers one request at a time).
+func (e *c14Env) overlappingRequests() {
+	be, err := newBackend("mem", 0, 0, "")
+	if err != nil {
+		e.c.Note("backend: %v", err)
+		return
+	}
+	e.be = be
+	e.mm.Store = be.st
+	e.mm.ExtHost = be.host
+	r := e.c.SubRng("c14-overlap-" + e.k.label())
+	var urls []string
+	for b := 0; b < 8; b++ {
+		addr := fmt.Sprintf("ovl%d@example.com", b)
+		box, err := e.mm.MailboxForAddress(addr)
+		if err != nil {
+			continue
+		}
+		n := 1 + r.Intn(6)
+		var lastID string
+		for k := 0; k < n; k++ {
+			body := fmt.Sprintf("From: sender%d@example.org\r\nTo: %s\r\nSubject: overlap %d/%d %s\r\nContent-Type: text/plain\r\n\r\n%s\r\n", b, addr, b, k,
+				strings.Repeat("s", r.Intn(40)), strings.Repeat(fmt.Sprintf("text of message %d/%d. ", b, k), 1+r.Intn(200)))
+			id, err := be.st.AddMessage(&message.Delivery{Meta: event.MessageMetadata{Mailbox: box, From: &mail.Address{Address: fmt.Sprintf("sender%d@example.org", b)},
+				To: []*mail.Address{{Address: addr}}, Subject: fmt.Sprintf("overlap %d/%d", b, k), Date: time.Unix(1700000000+int64(k), 0)}, Reader: strings.NewReader(body)})
+			if err != nil {
+				e.c.Note("overlap: AddMessage: %v", err)
+				return
+			}
+			lastID = id
+		}
+		name := url.PathEscape(box)
+		urls = append(urls, e.prefix("/api/v1/mailbox/"+name), e.prefix("/api/v1/mailbox/"+name+"/"+lastID), e.prefix("/api/v1/mailbox/"+name+"/"+lastID+"/source"),
+			e.prefix("/serve/mailbox/"+name+"/"+lastID), e.prefix("/serve/mailbox/"+name+"/"+lastID+"/source"))
+	}
+	serve := func(w http.ResponseWriter, u string) {
+		req := httptest.NewRequest("GET", u, nil)
+		req.Header.Set("Accept", "application/json")
+		web.Router.ServeHTTP(w, req)
+	}
+	base := map[string][]byte{}
+	for _, u := range urls {
+		rec := httptest.NewRecorder()
+		serve(rec, u)
+		if rec.Code != 200 {
+			e.c.Fail("rest-read-alone", []string{"GET " + u}, fmt.Sprintf("status %d for a message the store holds", rec.Code), "")
+			return
+		}
+		base[u] = append([]byte{}, rec.Body.Bytes()...)
+	}
+	for i, ua := range urls {
+		ub := urls[(i+5+5*r.Intn(len(urls)/5-1))%len(urls)] // a route of another mailbox
+		inner := httptest.NewRecorder()
+		outer := &c02SlowWriter{hdr: http.Header{}, meanwhile: func() { serve(inner, ub) }}
+		serve(outer, ua)
+		e.c.Compared(2)
+		e.c.H("overlap:nested")
+		if !bytes.Equal(outer.body.Bytes(), base[ua]) || !bytes.Equal(inner.Body.Bytes(), base[ub]) {
+			e.c.Fail("request-answer-independent-of-other-requests", []string{"GET " + ua + " whose client is slow to take the first byte; meanwhile GET " + ub + " is served completely"},
+				fmt.Sprintf("first request alone: %s | overlapped: %s ;; second request alone: %s | overlapped: %s", c14Trunc(string(base[ua]), 160), c14Trunc(outer.body.String(), 160),
+					c14Trunc(string(base[ub]), 160), c14Trunc(inner.Body.String(), 160)), "")
+			return
+		}
+	}
+	var wg sync.WaitGroup
+	var once sync.Once
+	rounds := e.c.Scale(60, 600)
+	for g := 0; g < 8; g++ {
+		wg.Add(1)
+		go func(g int) {
+			defer wg.Done()
+			rr := rand.New(rand.NewSource(int64(g) + 4242))
+			for i := 0; i < rounds; i++ {
+				u := urls[(g*5+rr.Intn(5)+5*rr.Intn(2)*rr.Intn(8))%len(urls)]
+				req, _ := http.NewRequest("GET", e.srv.URL+u, nil)
+				req.Header.Set("Accept", "application/json")
+				resp, err := e.raw.Do(req)
+				if err != nil {
+					once.Do(func() { e.c.Fail("no-dropped-connection", []string{"GET " + u + " (8 clients at once)"}, err.Error(), "") })
+					return
+				}
+				b, _ := io.ReadAll(resp.Body)
+				resp.Body.Close()
+				e.c.Compared(1)
+				e.c.H("overlap:concurrent")
+				if resp.StatusCode != 200 || !bytes.Equal(b, base[u]) {
+					once.Do(func() {
+						e.c.Fail("request-answer-independent-of-other-requests", []string{"GET " + u + " while seven other clients read other mailboxes"},
+							fmt.Sprintf("status %d; alone: %s | among others: %s", resp.StatusCode, c14Trunc(string(base[u]), 200), c14Trunc(string(b), 200)), "")
+					})
+					return
+				}
+			}
+		}(g)
+	}
+	wg.Wait()
+	e.c.Count("overlapping-requests "+e.k.label(), true)
 }
